@@ -11,6 +11,11 @@ from .c13 import txn_type, txn_methods
 PROP = "C12"
 
 
+def _in_mods(m, allowed):
+    """In one of the modules, or in a private submodule of one (`state::refcount` belongs to `state`)."""
+    return any(m == a or (m or "").startswith(a + "::") for a in allowed if a)
+
+
 def rules(ctx, tier):
     out = []
     prog = ctx.prog
@@ -37,7 +42,7 @@ def rules(ctx, tier):
             counter_fields.add(w.field)
     for cu in ctx.world.container_uses:
         if ANCHOR_FIELDS.get(cu.field) == "REFCNT" and cu.mutable:
-            r.check(cu.site.body.module in allowed_mods, "refcount-mutator:%s" % cu.site.body.path.split("::")[-1], cu.site.body,
+            r.check(_in_mods(cu.site.body.module, allowed_mods), "refcount-mutator:%s" % cu.site.body.path.split("::")[-1], cu.site.body,
                     "%s (module %s)" % (cu.describe(), cu.site.body.module),
                     "%s: the refcount map is mutated outside %s" % (cu.describe(), sorted(allowed_mods)), site_where(cu.site))
     for w in ctx.world.field_writes:
@@ -55,7 +60,7 @@ def rules(ctx, tier):
         if not direct or b.path in ctx.apply_roots() or b in loaders:
             continue
         for (cs, how) in prog.callers_index().get(b.path, []):
-            r.check(cs.body.module in allowed_mods, "primitive-caller:%s" % b.path.split("::")[-1], cs.body,
+            r.check(_in_mods(cs.body.module, allowed_mods), "primitive-caller:%s" % b.path.split("::")[-1], cs.body,
                     "%s is called from %s" % (b.path.split("::")[-1], cs.body.path),
                     "%s is called from %s, outside %s" % (b.path, cs.body.path, sorted(allowed_mods)), site_where(cs))
     r.need(8, "refcount mutators, counter writes, primitive callers")
@@ -137,7 +142,9 @@ def recompute_shape(ctx, r):
         reads_keymap = any(ANCHOR_FIELDS.get(cu.field) == "KEYMAP" and not cu.mutable and cu.site.body.path in readers
                            for cu in ctx.world.container_uses)
         is_len = lambda lv: any(l[0] == "call" and (l[1].endswith("::len") or l[1].endswith("::count")) for l in lv)
-        is_sum = lambda lv: any(l[0] == "call" and l[1].endswith("::sum") for l in lv)
+        # a sum: `iter.sum()`, or a local running total (starts at a constant, grows by `+=` in the loop)
+        is_sum = lambda lv: any(l[0] == "call" and l[1].endswith("::sum") for l in lv) or (
+            any(l[0] == "binop" and l[1].startswith("Add") for l in lv) and any(l[0] == "const" for l in lv))
         uniq = [k for k in srcs if is_len(srcs[k])]
         byts = [k for k in srcs if is_sum(srcs[k]) and k not in uniq]
         ok = reads_keymap and len(uniq) >= 1 and len(byts) >= 1 and set(int_fields[cs]) <= set(srcs)
